@@ -18,6 +18,7 @@ import (
 	"math/rand"
 	"net"
 	"os"
+	"reflect"
 	"sort"
 	"strings"
 	"sync"
@@ -308,6 +309,49 @@ func vrConsumeBGP(fetch controllers.PeersForService, key string) int {
 	return len(sets.List(peers))
 }
 
+// vrPrivAt formats obj.<field>[k1][k2]... of an unexported map field, looked up by reflection so that
+// a tree with another bookkeeping representation still compiles: when the field is absent or not a
+// map with these key types the access is recorded in vrSkipped (-> stat whitebox_skipped:<field>) and
+// the black-box part of the state (fetchers, session manager, announcer) remains.  A missing key
+// formats as the zero value of the element type.
+var vrSkipped sync.Map
+
+func vrPrivAt(obj any, field string, keys ...any) string {
+	v := reflect.ValueOf(obj)
+	for v.Kind() == reflect.Pointer {
+		v = v.Elem()
+	}
+	if v.Kind() != reflect.Struct {
+		vrSkipped.Store(field, true)
+		return "?"
+	}
+	f := v.FieldByName(field)
+	if !f.IsValid() {
+		vrSkipped.Store(field, true)
+		return "?"
+	}
+	for _, k := range keys {
+		kv := reflect.ValueOf(k)
+		if f.Kind() != reflect.Map || !kv.Type().AssignableTo(f.Type().Key()) {
+			vrSkipped.Store(field, true)
+			return "?"
+		}
+		e := f.MapIndex(kv)
+		if !e.IsValid() {
+			e = reflect.Zero(f.Type().Elem())
+		}
+		f = e
+	}
+	return fmt.Sprintf("%v", f)
+}
+
+func vrReportSkipped(out interface{ Stat(string, int) }) {
+	vrSkipped.Range(func(k, _ any) bool {
+		out.Stat("whitebox_skipped:"+k.(string), 1)
+		return true
+	})
+}
+
 // projection of the final state the property speaks about
 func (s *vrSystem) state() map[string]string {
 	st := map[string]string{}
@@ -320,7 +364,7 @@ func (s *vrSystem) state() map[string]string {
 		sort.Strings(l2)
 		st["l2 "+name] = strings.Join(l2, "; ")
 		st["peers "+name] = strings.Join(sets.List(s.c.bgpPeersFetcher(name)), ",")
-		st["announced "+name] = fmt.Sprintf("bgp=%v l2=%v ips=%v", s.c.announced[config.BGP][name], s.c.announced[config.Layer2][name], s.c.svcIPs[name])
+		st["announced "+name] = fmt.Sprintf("bgp=%s l2=%s ips=%s", vrPrivAt(s.c, "announced", config.BGP, name), vrPrivAt(s.c, "announced", config.Layer2, name), vrPrivAt(s.c, "svcIPs", name))
 	}
 	rc, _ := s.ann.VerifRefcnt() // absent on a tree with another representation: the black-box state below remains
 	var ks []string
@@ -471,6 +515,7 @@ func vrRound(t *testing.T, out *vOut, seed int64, round int, raw map[string]bool
 		}
 	}
 	out.Stat("speaker_final_l2_or_bgp_announcements", nontrivial)
+	vrReportSkipped(out)
 	if len(diffs) > 0 {
 		sort.Strings(diffs)
 		var sched []string
